@@ -53,6 +53,15 @@ def lattice(tier):
   mvs += [F(3), F(6), F(3, 4)] if tier == "thorough" else [F(3)]
   for bits, mv, rnd in itertools.product(bits_r, mvs, ("rnd", "floor")):
     yield "quantized_po2", dict(bits=bits, max_value=mv, log2_rounding=rnd)
+  # the non-straight-through form (use_ste=False) has its own return arm
+  for bits, mv in itertools.product((2, 4, 8), (None, F(1), F(8))):
+    yield "quantized_po2", dict(bits=bits, max_value=mv, use_ste=False,
+                                log2_rounding="rnd")
+    yield "quantized_relu_po2", dict(bits=bits, max_value=mv, use_ste=False,
+                                log2_rounding="rnd")
+    yield "quantized_relu_po2", dict(bits=bits, max_value=mv, use_ste=False,
+                                     negative_slope=F(1, 4),
+                                     log2_rounding="rnd")
   slopes = (F(0), F(1, 2), F(1, 8)) if tier == "thorough" else (F(0),
                                                                 F(1, 4))
   for bits, mv, slope, rnd in itertools.product(bits_r, mvs, slopes,
